@@ -3,9 +3,9 @@ package main
 import (
 	"fmt"
 	"os"
-	"strings"
 	"path/filepath"
 	"sort"
+	"strings"
 	"sync"
 	"time"
 )
